@@ -365,6 +365,7 @@ func (f *fx) applyCall(ct *callTarget, args []Val, pos token.Pos, resV *ssa.Call
 		f.regKey(k, "Int")
 		f.set(f.cur, k, T("Int", "(+ %s 1)", f.get(f.cur, k).S))
 	}
+	f.noLockAcrossCall(ct, pos)
 	f.callSiteSpecs(ct, args, pos)
 	// inline?
 	if ct.fn != nil && len(ct.fn.Blocks) > 0 {
@@ -380,6 +381,29 @@ func (f *fx) applyCall(ct *callTarget, args []Val, pos token.Pos, resV *ssa.Call
 		return f.unknownCall(ct, args, pos)
 	}
 	return f.contractCall(ct, args, pos)
+}
+
+// noLockAcrossCall: calls into the repository (or into user code) must not be made while a lock is held.
+func (f *fx) noLockAcrossCall(ct *callTarget, pos token.Pos) {
+	if _, ok := f.e.specs.Ghosts["Held"]; !ok {
+		return
+	}
+	if isLibraryFn(ct.fn) || ct.libIface {
+		return
+	}
+	if ct.fn != nil && !f.e.lockUsers()[fnKey(ct.fn)] {
+		return // the callee (transitively) never takes a lock nor touches guarded state
+	}
+	if _, ok := f.e.keySorts["X:Held"]; !ok {
+		return
+	}
+	h := f.get(f.cur, "X:Held")
+	if h.S == f.get(f.top.entry, "X:Held").S {
+		return // no lock operation happened on this path so far
+	}
+	where, txt := f.srcLine(pos)
+	g := T("Bool", "(forall ((m Int)) (= (select %s m) 0))", h.S)
+	f.oblige("guard", fmt.Sprintf("guard:no-lock-held-across-call#%d", f.ordinal("guard:nolock")), g, []string{"C11"}, where, "call of "+ct.key+" while a lock may be held: "+txt)
 }
 
 // callSiteSpecs checks the caller's "callsite" clauses for this call.
@@ -1171,11 +1195,11 @@ func (f *fx) builtin(b *ssa.Builtin, c *ssa.CallCommon, ci ssa.CallInstruction) 
 		// contents: res[i] = s[i] for i < len(s); res[len(s)+j] = add[j]
 		arr := f.get(f.cur, k)
 		nb := f.sc.fresh("abacking", arraySort("Int", es))
-		f.sc.assert(T("Bool", "(forall ((i Int)) (! (=> (and (<= 0 i) (< i (sl_len %s))) (= (select %s i) (select (select %s (sl_ref %s)) (+ (sl_off %s) i)))) :pattern ((select %s i))))", s.S, nb.S, arr.S, s.S, s.S, nb.S))
+		f.sc.assert(T("Bool", "(forall ((i Int)) (! (=> (and (<= 0 i) (< i (sl_len %s))) (= (select %s (idx_add 0 i)) (select (select %s (sl_ref %s)) (idx_add (sl_off %s) i)))) :pattern ((select %s (idx_add 0 i)))))", s.S, nb.S, arr.S, s.S, s.S, nb.S))
 		if add.Sort == "Slice" {
-			f.sc.assert(T("Bool", "(forall ((j Int)) (! (=> (and (<= 0 j) (< j (sl_len %s))) (= (select %s (+ (sl_len %s) j)) (select (select %s (sl_ref %s)) (+ (sl_off %s) j)))) :pattern ((select (select %s (sl_ref %s)) (+ (sl_off %s) j)))))", add.S, nb.S, s.S, arr.S, add.S, add.S, arr.S, add.S, add.S))
+			f.sc.assert(T("Bool", "(forall ((j Int)) (! (=> (and (<= 0 j) (< j (sl_len %s))) (= (select %s (idx_add 0 (+ (sl_len %s) j))) (select (select %s (sl_ref %s)) (idx_add (sl_off %s) j)))) :pattern ((select (select %s (sl_ref %s)) (idx_add (sl_off %s) j)))))", add.S, nb.S, s.S, arr.S, add.S, add.S, arr.S, add.S, add.S))
 			// the common single-element case, stated directly
-			f.sc.assert(T("Bool", "(=> (= (sl_len %s) 1) (= (select %s (sl_len %s)) (select (select %s (sl_ref %s)) (sl_off %s))))", add.S, nb.S, s.S, arr.S, add.S, add.S))
+			f.sc.assert(T("Bool", "(=> (= (sl_len %s) 1) (= (select %s (idx_add 0 (sl_len %s))) (select (select %s (sl_ref %s)) (idx_add (sl_off %s) 0))))", add.S, nb.S, s.S, arr.S, add.S, add.S))
 		}
 		f.set(f.cur, k, sto(arr, ref, nb))
 		return termVal(f.sc.define("appended", res))
@@ -1411,7 +1435,7 @@ func (f *fx) checkFrameCall(ct *callTarget, env *Env, pos token.Pos) {
 		case "all":
 			f.checkFrameAll(ct.key, pos)
 		case "ghost":
-			ok := false
+			ok := m.Ghost == "Held" // lock state: every lock user is proved to restore it (ensures Held == old(Held))
 			for _, mm := range f.top.contract.Modifies {
 				if mm.Kind == "ghost" && mm.Ghost == m.Ghost {
 					ok = true
